@@ -145,6 +145,9 @@ func init() {
 	})
 	boundedChecks["C11"] = append(boundedChecks["C11"], func(w *World, tier string, seed int, verif string) []boundedResult {
 		return []boundedResult{runHarness(w, verif, tier, seed, harnessSpec{
+			name: "inputs-to-columns", pkg: "dig", pkgName: "dig", dir: "abi", files: []string{"inputs_bounded_test.go"}, run: "TestVerifInputsBounded",
+			bound: "a five-input event (three indexed inputs of types address, uint256, bytes32 and two data inputs uint256, address) in three declaration orders x every non-empty subset of selected inputs (93 cases) through the real dig.New (setCols) + processLog on a log whose topics and data words all differ: every selected column holds the value of the input it was declared for",
+		}), runHarness(w, verif, tier, seed, harnessSpec{
 			name: "plan-all-pairs", pkg: "dig", pkgName: "dig", dir: "plan", files: []string{"plan_bounded_test.go"}, run: "TestVerifPlanBounded",
 			bound: "every field name of the row builder (read from the source) alone and in every ordered pair, in tx, log and trace indexing mode, through the real dig.New -> Filter -> jrpc2.Client.Get -> Integration.Insert against a scripted JSON-RPC node in which every field of every item (2 transactions, 2 trace actions each) has a distinct non-zero value: each stored column must equal the value of the field it names for that very item; plus 30 ordered pairs of data plans on one shared client; thorough tier: plus 1200 seeded random sets of 3..8 fields",
 		})}
